@@ -16,7 +16,7 @@ import time
 from collections import deque
 from concurrent.futures import ThreadPoolExecutor
 
-from .. import core
+from .. import core, workers_ir
 from ..core import cz, clist, copt, cbool
 
 ID = "C18"
@@ -26,9 +26,16 @@ THEOREMS = [
     "C18_request_progress", "C18_request_bounded", "C18_fault_leaves_nonzero_exit", "C18_raise_only_on_failure", "C18_swallowed_exception_hangs_refuted",
     "C18_torn_put_hangs_refuted", "C18_dead_lock_holder_stop_hangs_refuted", "C18_stop_terminates_workers",
     "C18_stop_graceful",
+    "C18_tie_denotes_current", "C18_tie_steps_agree", "C18_tie_exit_codes", "C18_tie_returns_exactly_N",
+    "C18_tie_failure_detected_partial", "C18_tie_fault_leaves_nonzero_exit", "C18_tie_request_progress",
+    "C18_tie_stop_never_blocked",
 ]
 MODEL_TARGETS = ["model/Workers.vo", "model/Harness.vo"]
+TIE = ("T: harness/workers_ir.py (fail-closed ast translator) regenerates coq/gen/WorkersIR.v from python/tak/self_play.py; "
+       "proofs/WorkersTie.v re-proves against it that the source denotes model/Workers.v's `current` and step function")
 TRUSTED_BASE = [
+    "harness/workers_ir.py: ast translator self_play.py -> gen/WorkersIR.v (fail-closed: unknown shapes raise; which source shape maps to "
+    "which IR constructor is trusted, the IR's meaning is model/WorkersDenote.v)",
     "protocol model of run_job/entrypoint/play_many/stop (model/Workers.v): queue operations are atomic steps; "
     "multiprocessing.Queue is FIFO, bounded by its semaphore, get(timeout) returns; Process.exitcode is 0/None/non-zero as modelled",
     "harness/c18_driver.py + c18_factories.py: fault injector (global evaluation counter, os._exit, SIGKILL, FIONREAD watcher), "
@@ -48,6 +55,33 @@ HEADER = ("From Coq Require Import ZArith List Bool.\nFrom TV Require Import mod
 
 BOUND = float(os.environ.get("VERIF_C18_BOUND", "20"))
 PAR = int(os.environ.get("VERIF_C18_PAR", "6"))
+
+
+# --------------------------------------------------------------------------
+# translator tie: python/tak/self_play.py -> coq/gen/WorkersIR.v
+# --------------------------------------------------------------------------
+def pregen(run):
+    try:
+        workers_ir.regen(core.REPO)
+    except Exception as e:
+        # never leave a stale WorkersIR.v behind
+        core.write_if_changed(core.COQ / "gen" / "WorkersIR.v", workers_ir.stub(str(e)))
+        raise
+    run.oblige("translate:run_job+entrypoint+__attrs_post_init__+play_many+stop+play_many_games -> gen/WorkersIR.v", True)
+
+
+def broken_tie_lemma(run):
+    """name of the tie lemma at which the proof build stopped (if it stopped in proofs/WorkersTie.v)"""
+    where = str(run.extra.get("broken_at", ""))
+    if not where.startswith("proofs/WorkersTie.v:"):
+        return None
+    try:
+        ln = int(where.split(":")[1])
+        import re
+        names = re.findall(r"^Lemma ([A-Za-z0-9_]+)", "\n".join((core.COQ / "proofs" / "WorkersTie.v").read_text().splitlines()[:ln]), re.M)
+        return names[-1] if names else None
+    except Exception:
+        return None
 
 
 # --------------------------------------------------------------------------
@@ -517,6 +551,10 @@ def check_in_coq(run, observations, tag):
 
 
 def correspondence(run):
+    tie = broken_tie_lemma(run)
+    if tie:
+        run.extra["broken_tie_lemma"] = tie
+        core.log(f"[C18] the source no longer denotes the model: tie lemma {tie} (proofs/WorkersTie.v) fails against the regenerated gen/WorkersIR.v")
     scs = scenarios(run)
     t0 = time.time()
     obs_all = run_scenarios(scs)
